@@ -27,6 +27,8 @@ inductive Fault where
   | exception (k : ExcKind)
   deriving Repr, DecidableEq, Inhabited
 
+deriving instance DecidableEq for Except
+
 abbrev M := Except Fault
 
 def Fault.name : Fault → String
